@@ -125,7 +125,7 @@ def prefixes(data, maxbits, addpath, d):
     return out
 
 
-def as_path(value, asn4, d):
+def as_path(value, asn4, d, code=AS_PATH):
     """RFC 4271 4.3 b) / RFC 6793: segments (type, [asn...])."""
     size = 4 if asn4 else 2
     segs = []
@@ -133,7 +133,7 @@ def as_path(value, asn4, d):
     n = len(value)
     while i < n:
         if i + 2 > n:
-            raise Malformed('as-path-truncated', AS_PATH)
+            raise Malformed('as-path-truncated', code)
         t = value[i]
         ok = False
         for k in (AS_SET, AS_SEQUENCE, AS_CONFED_SEQUENCE, AS_CONFED_SET):
@@ -142,10 +142,10 @@ def as_path(value, asn4, d):
                 ok = True
                 break
         if not ok:
-            raise Malformed('as-path-segment-type', AS_PATH)
-        cnt = d.upto(value[i + 1], (n - i - 2) // size, 'as-path-truncated', AS_PATH)
+            raise Malformed('as-path-segment-type', code)
+        cnt = d.upto(value[i + 1], (n - i - 2) // size, 'as-path-truncated', code)
         if cnt == 0:
-            raise Malformed('as-path-empty-segment', AS_PATH)  # RFC 7606 7.2
+            raise Malformed('as-path-empty-segment', code)  # RFC 7606 7.2
         i += 2
         asns = []
         for k in range(cnt):
@@ -193,7 +193,7 @@ def attr_wellformed(flags, code, value, asn4, d):
     elif code == AS_PATH:
         as_path(value, asn4, d)
     elif code == AS4_PATH:
-        as_path(value, True, d)
+        as_path(value, True, d, AS4_PATH)
     elif code == NEXT_HOP:
         if n != 4:
             raise Malformed('attribute-length', code)
@@ -251,11 +251,18 @@ def decode_update(body, asn4, addpath_of, d, families=None):
     withdrawn, attrs, nlri = split(body, d)
     tlvs = walk(attrs, d)
     seen = []
+    kept = []
     for flags, code, value in tlvs:
         if code in seen:
-            raise Malformed('attribute-duplicate', code)
+            # RFC 7606 3.g: MP_REACH / MP_UNREACH twice is a session reset; for any other attribute every
+            # occurrence after the first is discarded and the UPDATE continues to be processed
+            if code in (MP_REACH, MP_UNREACH):
+                raise Malformed('attribute-duplicate', code)
+            continue
         seen.append(code)
+        kept.append((flags, code, value))
         attr_wellformed(flags, code, value, asn4, d)
+    tlvs = kept
     res = {'withdraw': [], 'announce': [], 'attrs': tlvs, 'eor': None}
     for pid, mask, p in prefixes(withdrawn, 32, addpath_of(1, 1), d):
         res['withdraw'].append((1, 1, pid, mask, p))
@@ -396,11 +403,18 @@ def decode_update_mp(body, asn4, addpath_of, d, extended_nh=None):
     withdrawn, attrs, nlri = split(body, d)
     tlvs = walk(attrs, d)
     seen = []
+    kept = []
     for flags, code, value in tlvs:
         if code in seen:
-            raise Malformed('attribute-duplicate', code)
+            # RFC 7606 3.g: MP_REACH / MP_UNREACH twice is a session reset; for any other attribute every
+            # occurrence after the first is discarded and the UPDATE continues to be processed
+            if code in (MP_REACH, MP_UNREACH):
+                raise Malformed('attribute-duplicate', code)
+            continue
         seen.append(code)
+        kept.append((flags, code, value))
         attr_wellformed(flags, code, value, asn4, d)
+    tlvs = kept
     by = {code: (flags, value) for flags, code, value in tlvs}
     res = {'attrs': tlvs, 'withdraw': [], 'announce': []}
     for pid, mask, p in prefixes(withdrawn, 32, addpath_of(1, 1), d):
